@@ -93,9 +93,39 @@ class Totality:
         if k not in self.ai_memo:
             view = self.prog.view(key, cfg)
             self.ai_memo[k] = None   # recursion guard
-            self.ai_memo[k] = absint.Analysis(view, ret_len=self._ret_len, ret_discr=self._ret_discr,
+            hints = self._closure_arg_hints(key, cfg)
+            self.ai_memo[k] = absint.Analysis(view, arg_intervals=None if hints == "never" else hints,
+                                              ret_len=self._ret_len, ret_discr=self._ret_discr,
                                               ret_interval=self._ret_interval, ret_paths=self._ret_paths)
         return self.ai_memo[k]
+
+    def _closure_arg_hints(self, key, cfg):
+        """Intervals of a closure's own parameters that its one call site fixes: the callback of
+        `core::array::from_fn::<_, N, _>` is called with every index below N and nothing else."""
+        body = self.prog.bodies.get(key)
+        if body is None or body["kind"] != "Closure" or "::{closure" not in key:
+            return None
+        parent = key[:key.rindex("::{closure")]
+        if parent not in self.prog.bodies:
+            return None
+        pv = self.prog.view(parent, cfg)
+        for _bi, t in pv.calls():
+            f = t["fn"]
+            if (ir.callee_name(f) or "") != "core::array::from_fn":
+                continue
+            gargs = f.get("args", [])
+            if not any(a.get("k") == "closure" and a.get("def") == key for a in gargs):
+                continue
+            for a in gargs:
+                n = None
+                if a.get("c") == "lit":
+                    n = a.get("v")
+                elif a.get("c") == "param":
+                    n = pv.env.get(a.get("n"))
+                if isinstance(n, int):
+                    # local 1 is the closure environment, local 2 the index; N == 0: the callback is never called
+                    return {2: (0, n - 1)} if n > 0 else "never"
+        return None
 
     def _ret_paths(self, callee, term, caller_ai, st, depth=[0]):
         """Intervals of the scalar fields of the tuple a small local function returns, for the argument intervals of
@@ -510,6 +540,15 @@ class Totality:
                         continue
                     if not self._derives_from_call(view, o, req["bound_from"]):
                         return False
+            if "amount_param" in req:
+                # the shift amount (operand b of an overflow-checked shift, or the subtrahend of `C - amount`) is the
+                # named parameter of the function, unmodified
+                t = view.blocks[block]["term"]
+                if t["t"] != "assert" or "b" not in t:
+                    return False
+                rp = self._root_param(view, t["b"])
+                if rp != req["amount_param"]:
+                    return False
             if "receiver_from" in req:
                 # the value the site consumes (first argument of unwrap / expect ...) is the direct result of a call
                 # to the named function, e.g. `write!(buffer, ..)` = Write::write_fmt
@@ -572,7 +611,8 @@ class Totality:
                 if r.get("kind", kind) != kind:
                     continue
                 if r.get("what") == what or (r.get("any_ordinal") and r.get("what") == base) \
-                        or (r.get("any_what") and base in r["any_what"]):
+                        or (r.get("any_what") and base in r["any_what"]) \
+                        or (r.get("what_re") and re.fullmatch(r["what_re"], base)):
                     self._row_owner = owner
                     return r
         return None
@@ -1031,6 +1071,8 @@ class Totality:
         prog = self.prog
         view = prog.view(key, cfg)
         body = view.body
+        if body["kind"] == "Closure" and self._closure_arg_hints(key, cfg) == "never":
+            return []      # callback of from_fn::<_, 0, _>: never called
         self.stats["functions"] += 1
         out = []
         ai = None
